@@ -116,6 +116,18 @@ W = [
     dict(id='quoted-blank-literal', commit='a0b40fc', props=['C02'], query='"a b" | count', input='a b\na\tb\naXb\n', stdout='[{"_count":1}]\n'),
     dict(id='avg-of-nothing', commit='c7662ad', props=['C01', 'C03'], query='* | json | avg(v) by k | sum(_average) as s', input='{"k":"a","v":1}\n{"k":"a","v":3}\n{"k":"b","v":"n/a"}\n{"k":"c","v":10}\n',
          stdout='[{"s":12}]\n'),
+    dict(id='duration-div-integer-text', commit='46e1115', props=['C05', 'C08'], query='* | json | 1h / n as a | 1h * n as c | fields a, c', input='{"n":"2"}\n',
+         stdout='{"a":"PT1800S","c":"PT7200S"}\n'),
+    dict(id='sign-before-first-digit', commit='80926c1', props=['C08'], query='* | json | num(a) as a | num(b) as b | sum(c) as c',
+         input='{"a":"$-1,000","b":"USD -5.50","c":"$-3"}\n{"a":"$-1,000","b":"USD -5.50","c":"$-4"}\n', stdout='[{"c":-7}]\n'),
+    dict(id='sign-before-first-digit-rows', commit='80926c1', props=['C08'], query='* | json | num(a) as a | num(b) as b | fields a, b',
+         input='{"a":"$-1,000","b":"USD -5.50"}\n', stdout='{"a":-1000,"b":-5.5}\n'),
+    dict(id='num-of-a-date', commit='4e663c3', props=['C05'], query='* | json | parseDate(t) as d | num(d) as n | isNumeric(d) as isn | fields n, isn',
+         input='{"t":"1970-01-01T00:00:01Z"}\n', stdout='{"isn":true,"n":1000}\n'),
+    dict(id='date-is-no-operand', commit='4e663c3', props=['C05'], query='* | json | parseDate(t) as d | d * 2 as x | count', input='{"t":"1970-01-01T00:00:01Z"}\n',
+         stdout='[]\n'),
+    dict(id='errors-after-a-mere-sort', commit='64df92c', props=['C11', 'C05', 'C03'], query='* | logfmt | sort by x | z + 1 as w | fields w', input='x=2 y=1\nx=1 z=2\nx=3 y=3\n',
+         stdout='[{"w":3}]\n', stderr_has='error: No value for key "z"'),
     dict(id='all-infinite-extremum', commit='04d0ab4', props=['C01', 'C08'], query='* | json | min(b/d) as lo, max(0-b/d) as hi | lo > 1000 as big | hi < 0-1000 as small | fields big, small',
          input='{"b":1,"d":0}\n{"b":2,"d":0}\n', stdout='[{"big":true,"small":true}]\n'),
     dict(id='infinite-extremum', commit='4eedbc5', props=['C01', 'C08'], query='* | json | max(b/d) as hi | hi > 1000 as big | fields big', input='{"b":100,"d":2}\n{"b":50,"d":0}\n{"b":30,"d":3}\n',
